@@ -31,7 +31,7 @@ Inductive verdict :=
 | VWitness                        (* consensus witness does not verify *)
 | VKnownHash                      (* a header is recorded for this height and it is another one *)
 | VMerkle
-| VTx                             (* a transaction is not admitted by the scratch pool *)
+| VTx                             (* a transaction is not accepted by the scratch pool *)
 | VConflict                       (* transactions of the block exclude one another (repaired code only) *)
 | VExec                           (* OnPersist / PostPersist fail *)
 | VNextRoot                       (* the recorded next header commits to another state root *)
@@ -65,7 +65,7 @@ Record blockd := mkBlock {
   b_prev_older : option N; (* index of the stored header with hash b_prev when that is not the tip *)
   b_sig_ok : bool;         (* oracle: the witness verifies against the designated consensus address *)
   b_txs_merkle : N;        (* Merkle root of the transaction list *)
-  b_txs_ok : bool;         (* oracle: every transaction is admitted by the scratch pool, in order *)
+  b_txs_ok : bool;         (* oracle: every transaction is accepted by the scratch pool, in order *)
   b_conflict_free : bool;  (* no transaction of the block names another one in a Conflicts attribute, none twice *)
   b_exec_ok : bool;        (* oracle: the block executes *)
   b_new_root : N;          (* oracle: state root after executing it *)
